@@ -36,7 +36,7 @@ def gen_model(rng, size="small", feats=None):
         "capacity": p(0.6), "windows": p(0.5), "maxwait_stop": p(0.35), "maxwait_veh": p(0.3),
         "endtime": p(0.35), "maxdur": p(0.3), "maxstops": p(0.3), "maxdist": p(0.3),
         "attrs": p(0.3), "precedence": p(0.4), "no_startloc": p(0.15), "penalties": p(0.6),
-        "activation": p(0.5), "nonmetric": p(0.5), "tight": p(0.5), "user": False,
+        "activation": p(0.5), "nonmetric": p(0.5), "tight": p(0.5), "user": False, "groups": False, "initial": False,
     }
     if feats:
         F.update(feats)
@@ -159,6 +159,53 @@ def gen_model(rng, size="small", feats=None):
         opts["dis_start_time"] = False
     opts.update({"f_activation": rng.choice([0, 1, 3]), "f_travel": rng.choice([0, 1, 2]),
                  "f_vehicles_duration": rng.choice([0, 1, 1]), "f_unplanned": rng.choice([0, 1, 1, 2])})
+    # stop groups (PlanAll, same vehicle) over whole units; member order as the factory builds it:
+    # units in the order of the string-sorted stop ids of the group
+    groups = []
+    if F.get("groups") and len(units) >= 2:
+        idx = list(range(len(units)))
+        rng.shuffle(idx)
+        k = 0
+        while k + 1 < len(idx) and (not groups or p(0.4)):
+            size = rng.randint(2, min(3, len(idx) - k))
+            chosen = idx[k:k + size]
+            k += size
+            sids = sorted(("s%d" % x, ui) for ui in chosen for x in units[ui]["stops"])
+            order = []
+            for _, ui in sids:
+                if ui not in order:
+                    order.append(ui)
+            groups.append(order)
+    # initial stops: whole units, in an order their DAG allows, possibly fixed; group members may be initial stops too
+    for ve in vehicles:
+        ve["initial"] = []
+    if F.get("initial"):
+        free = list(range(len(units)))
+        rng.shuffle(free)
+        for vi, ve in enumerate(vehicles):
+            if free and p(0.7):
+                seq = []
+                for _ in range(rng.randint(1, min(3, len(free)))):
+                    if not free:
+                        break
+                    ui = free.pop()
+                    # members of one stop group are only made initial stops of one vehicle
+                    # (split across vehicles: see known finding C08-initial-group-split)
+                    mates = [w for g in groups if ui in g for w in g if w != ui and w in free]
+                    for w in mates:
+                        if p(0.6):
+                            free.remove(w)
+                            od2 = rng.choice(units[w]["orders"]) if units[w]["orders"] else units[w]["stops"]
+                            seq.extend(od2)
+                        else:
+                            free.remove(w)   # stays out of every initial list
+                    od = rng.choice(units[ui]["orders"]) if units[ui]["orders"] else units[ui]["stops"]
+                    # interleave: put this unit's stops at random places keeping their relative order
+                    pos = sorted(rng.randrange(len(seq) + 1) for _ in od)
+                    for off, (x, q) in enumerate(zip(od, pos)):
+                        seq.insert(q + off, x)
+                fixed_units = {ui for ui in {unit_of(units, x) for x in seq} if p(0.3)}
+                ve["initial"] = [(x, unit_of(units, x) in fixed_units) for x in seq]
     user = []
     if F.get("user"):
         for _ in range(rng.randint(1, 2)):
@@ -170,8 +217,15 @@ def gen_model(rng, size="small", feats=None):
             if f in ("arrival", "start", "end") and not F["windows"] and vehicles[0]["start_time"] is None:
                 mx -= T0
             user.append((f, mx, veh, rng.random() < 0.3))
-    return {"user": user, "stops": stops, "vehicles": vehicles, "units": units, "arcs": arcs, "dur": dur, "dist": dist,
+    return {"groups": groups, "user": user, "stops": stops, "vehicles": vehicles, "units": units, "arcs": arcs, "dur": dur, "dist": dist,
             "nres": nres, "res_mode": res_mode, "opts": opts, "features": {k: bool(v) for k, v in F.items()}}
+
+
+def unit_of(units, x):
+    for k, u in enumerate(units):
+        if x in u["stops"]:
+            return k
+    return None
 
 
 def res_names(m):
@@ -235,7 +289,12 @@ def to_json(m):
         if ve["activation"] is not None:
             jv["activation_penalty"] = ve["activation"]
         vehicles.append(jv)
+    for v, ve in enumerate(m["vehicles"]):
+        if ve.get("initial"):
+            vehicles[v]["initial_stops"] = [{"id": "s%d" % x, "fixed": bool(fx)} for x, fx in ve["initial"]]
     inp = {"stops": stops, "vehicles": vehicles, "duration_matrix": m["dur"], "distance_matrix": m["dist"]}
+    if m.get("groups"):
+        inp["stop_groups"] = [["s%d" % x for ui in g for x in m["units"][ui]["stops"]] for g in m["groups"]]
     o = m["opts"]
     gopt = {
         "constraints": {"disable": {
@@ -289,6 +348,11 @@ def to_lines(m):
                                              " ".join("%d %d %s" % (a, bb, b(d)) for a, bb, d in u["arcs"])))
         for od in u["orders"]:
             ls.append("uorder %d %d %s" % (min(u["stops"]), len(od), " ".join(map(str, od))))
+    for g in m.get("groups", []):
+        ls.append("group %d %s" % (len(g), " ".join(str(min(m["units"][ui]["stops"])) for ui in g)))
+    for v, ve in enumerate(m["vehicles"]):
+        if ve.get("initial"):
+            ls.append("initial %d %d %s" % (v, len(ve["initial"]), " ".join("%d %s" % (x, b(fx)) for x, fx in ve["initial"])))
     for row in m["dur"]:
         ls.append("drow " + " ".join(map(str, row)))
     for row in m["dist"]:
@@ -299,6 +363,8 @@ def to_lines(m):
 def gen_ops(rng, m, nops, mode="unchecked"):
     ops = []
     maxu = max(len(u["stops"]) for u in m["units"])
+    for g in m.get("groups", []):
+        maxu = max(maxu, sum(len(m["units"][ui]["stops"]) for ui in g))
     for _ in range(nops):
         r = rng.random()
         if r < 0.62:
@@ -306,7 +372,13 @@ def gen_ops(rng, m, nops, mode="unchecked"):
             ops.append("op %s %d %d %d %s" % (kind, rng.randrange(1 << 20), rng.randrange(1 << 20), rng.randrange(1 << 20),
                                               " ".join(str(rng.randrange(1 << 20)) for _ in range(maxu))))
         elif r < 0.92:
-            ops.append("op unplanr %d" % rng.randrange(1 << 20))
+            q = rng.random()
+            if m.get("groups") and q < 0.3:
+                ops.append("op munplanr %d" % rng.randrange(1 << 20))
+            elif (m.get("groups") or any(ve.get("initial") for ve in m["vehicles"])) and q < 0.4:
+                ops.append("op vunplanr %d" % rng.randrange(1 << 20))
+            else:
+                ops.append("op unplanr %d" % rng.randrange(1 << 20))
         elif r < 0.95:
             ops.append("op copy")
         elif r < 0.98:
